@@ -93,6 +93,25 @@ func (f *ReplayFilter) TestAndSet(now time.Time, buf []byte) bool {
 	f.Lock()
 	defer f.Unlock()
 
+	return f.testAndSet(now, digest)
+}
+
+// TestAndSetNow is TestAndSet with the current time, read while holding the
+// filter's lock.  Concurrent callers that sample the clock themselves can
+// present their timestamps to the filter out of order (the one that read the
+// clock first may acquire the lock last), which compactFilter would mistake
+// for the system time having jumped backwards.
+func (f *ReplayFilter) TestAndSetNow(buf []byte) bool {
+	digest := siphash.Hash(f.key[0], f.key[1], buf)
+
+	f.Lock()
+	defer f.Unlock()
+
+	return f.testAndSet(time.Now(), digest)
+}
+
+// testAndSet is the body of TestAndSet, the caller must hold the lock.
+func (f *ReplayFilter) testAndSet(now time.Time, digest uint64) bool {
 	f.compactFilter(now)
 
 	if e := f.filter[digest]; e != nil {
